@@ -131,6 +131,48 @@ fn gen_aligned(c: &mut Choices<'_>) -> Value {
     json!({"src": src, "opts": opts_to(&opts), "origin": "prog", "layout": 0, "comments": comments})
 }
 
+/// A run of imports, some of which import nothing (rustfmt deletes those), with line and block
+/// comments before them and at the end of their lines.
+fn gen_imports(c: &mut Choices<'_>) -> Value {
+    let n = 2 + c.below(5);
+    let mut comments: Vec<Value> = vec![];
+    let mut next = 0usize;
+    let mut src = String::new();
+    for i in 0..n {
+        if c.chance(1, 4) {
+            let payload = format!("c{next}");
+            next += 1;
+            let text = format!("// {payload} before import {i}");
+            src.push_str(&format!("{text}\n"));
+            comments.push(json!({"payload": payload, "text": text, "slot": "import-leading", "block": false}));
+        }
+        let body = match c.weighted(&[4, 2, 1]) {
+            0 => format!("use m{i}::{};", *c.pick(&["a", "{b, a}", "x as y", "*"])),
+            1 => format!("use e{i}::{{}};"),
+            _ => "use {};".to_string(),
+        };
+        src.push_str(&body);
+        if c.chance(1, 3) {
+            let payload = format!("c{next}");
+            next += 1;
+            let block = c.chance(1, 4);
+            let text = if block { format!("/* {payload} after import {i} */") } else { format!("// {payload} after import {i}") };
+            src.push_str(&format!(" {text}"));
+            comments.push(json!({"payload": payload, "text": text, "slot": "import-trailing", "block": block}));
+        }
+        src.push('\n');
+        if c.chance(1, 6) {
+            src.push('\n');
+        }
+    }
+    src.push_str("\nfn after_imports() {}\n");
+    let mut opts: Opts = vec![];
+    if c.flip() {
+        opts.push(("reorder_imports".into(), "false".into()));
+    }
+    json!({"src": src, "opts": opts_to(&opts), "origin": "prog", "layout": 0, "comments": comments})
+}
+
 impl Property for C03 {
     fn id(&self) -> &'static str {
         "C03"
@@ -170,6 +212,9 @@ impl Property for C03 {
     fn generate(&self, c: &mut Choices<'_>, _g: &GenCtx) -> Value {
         if c.chance(1, 5) {
             return gen_aligned(c);
+        }
+        if c.chance(1, 10) {
+            return gen_imports(c);
         }
         let p = gen_prog(
             c,
@@ -278,6 +323,21 @@ impl Property for C03 {
                             continue;
                         }
                         return Outcome::fail("lost:comment-before-parameter-attribute", format!("comment {text:?} before an attributed parameter is lost\n{src}\n--->\n{}", r.text)).nontrivial(true);
+                    }
+                }
+                // known class: the line comments around imports that rustfmt deletes (`use a::{};`)
+                // are glued together on one line, so one comment ends up inside another
+                if slot.starts_with("import-") && (src.contains("{};")) {
+                    let glued_into_other = hits.is_empty() && out_comments.iter().any(|c| c.contains(text));
+                    let extended = hits.len() == 1 && hits[0].starts_with(text) && hits[0].len() > text.len();
+                    if glued_into_other || extended {
+                        if !judge_known {
+                            if !o.excluded.iter().any(|x| x.contains("deleted-imports")) {
+                                o.excluded.push("known-class:comments-of-deleted-imports-glued".into());
+                            }
+                            continue;
+                        }
+                        return Outcome::fail("altered:comments-of-deleted-imports-glued", format!("comment {text:?} ({slot}) is glued to another comment\n{src}\n--->\n{}", r.text)).nontrivial(true);
                     }
                 }
                 if hits.len() != 1 {
